@@ -156,6 +156,52 @@ fn main() {
             props::jobs::generate_c20(&opts, &mut sink);
             sink.finish(props::jobs::RULE_C20, serde_json::json!({}));
         }
+        "PROBE_NESTED" => {
+            // candidate finding: an operator inside an INNER loop body, behind a shuffle, reads the
+            // OUTER loop's state; on several hosts it may see a stale outer state
+            use renoir::config::ConfigBuilder;
+            use renoir::{RuntimeConfig, StreamContext};
+            let mut bad = 0;
+            for trial in 0..20u64 {
+                let hosts = 3u64;
+                let (tx, rx) = std::sync::mpsc::channel();
+                for h in 0..hosts {
+                    let tx = tx.clone();
+                    std::thread::spawn(move || {
+                        let mut toml = String::new();
+                        for i in 0..hosts { toml.push_str(&format!("[[host]]\naddress = \"127.99.{}.{}\"\nbase_port = 23000\nnum_cores = 2\n\n", 10 + trial, i + 1)); }
+                        let mut b = ConfigBuilder::new_remote(); b.parse_toml_str(&toml).unwrap(); b.host_id(h);
+                        let cfg: RuntimeConfig = b.build().unwrap();
+                        let env = StreamContext::new(cfg);
+                        let out = env.stream_par_iter(0..40i64).shuffle().replay(
+                            4, 0i64,
+                            |s, outer| {
+                                s.shuffle().replay(
+                                    2, 0i64,
+                                    move |s2, _inner| { let o = outer.clone(); s2.shuffle().map(move |x: i64| x + *o.get()) },
+                                    |d: &mut i64, x: i64| *d += x,
+                                    |st: &mut i64, d: i64| *st += d,
+                                    |_st: &mut i64| true,
+                                )
+                            },
+                            |d: &mut i64, x: i64| *d += x,
+                            |st: &mut i64, d: i64| *st += d,
+                            |_st: &mut i64| true,
+                        ).collect_vec();
+                        env.execute_blocking();
+                        let _ = tx.send(out.get());
+                    });
+                }
+                drop(tx);
+                let mut res = None;
+                for _ in 0..hosts { if let Ok(Some(v)) = rx.recv_timeout(std::time::Duration::from_secs(60)) { res = Some(v); } }
+                // sequential meaning: inner(outer_state) = 2 rounds: r1 = sum(x + o) = 780 + 40 o; inner state after 2 rounds = 2*(780+40 o)
+                let mut o = 0i64; for _ in 0..4 { o += 2 * (780 + 40 * o); }
+                println!("trial {trial}: got {:?} expected [{o}]", res);
+                if res != Some(vec![o]) { bad += 1; }
+            }
+            println!("mismatches: {bad}/20");
+        }
         "DEBUG20" => {
             use pipe::*;
             for trig in 0..7 {
